@@ -19,6 +19,8 @@ EXPLANATION = (
     "Decimal columns carry the rule's (scale, precision), text columns the upper length limit."
     " Added in rounds 6 and 7: The statement table also uses fields with native empty values (0, 1.5); ANSI int is"
     " decided as 32 bit (the module's own MAX_INTEGER), ANSI bigint as 64 bit."
+    " Added in round 10: (O19.8) DecimalRange derives total and fractional digits from every number of every"
+    " item (numbers of distinct digit shapes)."
 )
 ASSUMPTIONS = [
     "capacity table: tinyint 0..255 (unsigned, Transact-SQL), smallint +-2^15, int/integer +-2^31, bigint +-2^63, "
